@@ -8,8 +8,10 @@
  *                  highest stack slot touched; string functions are abstracted
  *                  (their results are unconstrained), since a stack effect that
  *                  holds for every memory content holds for the real ones
- *   (default)      layer 2: stack accesses ASSUMED in range (that is what E4
- *                  proves), every context-offset operand and every string
+ *   (default)      layer 2: the stack depth on entry is ASSUMED to leave room for the
+ *                  native's proved need/peak (that is what E4 establishes at
+ *                  every call site) and every stack access is then CHECKED to be
+ *                  in range; every context-offset operand and every string
  *                  function region checked against the context FIELD it starts in
  */
 #ifndef C05_PRE_H
@@ -17,6 +19,7 @@
 #include "common.h"
 
 #define T0N_ASSUME(c) ASSUME(c)
+#define T0N_CHECK(c, m) CHECK(c, m)
 
 static unsigned char *t0n_addr_chk(void *base, size_t off, size_t width);
 static void t0n_region_chk(const void *p, size_t n, int wr);
@@ -39,7 +42,8 @@ static void *t0n_x_memcpy(void *d, const void *s, size_t n)
 #ifdef NATIVE_REPLAY
 	{ size_t i; for (i = 0; i < n; i ++) ((unsigned char *)d)[i] = ((const unsigned char *)s)[i]; }
 #else
-	if (n > 0) __CPROVER_havoc_slice(d, n);     /* contents after the copy: any */
+	/* destination left at its unconstrained pre-state value: a superset of "source bytes"
+	   (a havoc of a symbolic slice of the context costs > 20 GB of SAT memory) */
 #endif
 	return d;
 }
@@ -50,7 +54,6 @@ static void *t0n_x_memset(void *d, int c, size_t n)
 	{ size_t i; for (i = 0; i < n; i ++) ((unsigned char *)d)[i] = (unsigned char)c; }
 #else
 	(void)c;
-	if (n > 0) __CPROVER_havoc_slice(d, n);
 #endif
 	return d;
 }
